@@ -1,9 +1,11 @@
 #!/bin/bash
-# rebenign.sh: re-runs every kept behaviour-preserving refactoring against the checks named in its meta.json (none may alarm).
+# rebenign.sh [area...]: re-runs every kept behaviour-preserving refactoring against the checks named in its meta.json (none may alarm).
 ROOT="$(cd "$(dirname "$0")/.." && pwd)"
 bad=0
+# optional arguments: area prefixes (align concurrent feat io misc morass pals seq); none = all
 for d in "$ROOT"/benign/*/; do
   name=$(basename "$d")
+  if [ $# -gt 0 ]; then ok=; for a in "$@"; do case "$name" in "$a"-*) ok=1;; esac; done; [ -n "$ok" ] || continue; fi
   chk=$(python3 -c "import json,sys; c=json.load(open('$d/meta.json'))['checks']; print(' '.join(c) if isinstance(c,list) else c)")
   if ! git -C "${VERIF_REPO:-/repo}" apply --check "$d/patch.diff" 2>/dev/null; then echo "$name: patch does not apply (skipped)"; continue; fi
   out=$("$ROOT/tools/benigntest.sh" "$d/patch.diff" $chk 2>&1); r=$?
